@@ -188,8 +188,15 @@ def main(argv=None):
                 undecided.append((full, "solver returned unknown / timeout"))
         # obligations that silently disappeared
         for site, ent in ledger.get(n, {}).items():
-            st, pr = (ent if isinstance(ent, list) else (ent, None))
+            ent = ent if isinstance(ent, list) else [ent, None]
+            st, pr = ent[0], ent[1]
+            kd = ent[2] if len(ent) > 2 else None
             if pr is not None and prop not in pr:
+                continue
+            if kd in IMPLICIT_KINDS:
+                # an obligation that exists only because the code contains a construct (an assert statement, a float
+                # division, a subscript, an element-wise operation, a str.format call): when the construct is gone
+                # there is nothing left to prove - not a sign of a check that silently stopped checking
                 continue
             if site not in r["sites"] and r["status"] == "ok":
                 undecided.append((f"{n}::{site}", "obligation present in the ledger was not generated on this run"))
@@ -283,7 +290,7 @@ def main(argv=None):
 
     if a.update_ledger:
         for n in names:
-            ledger[n] = {s: [d["status"], d.get("props")] for s, d in results[n]["sites"].items()}
+            ledger[n] = {s: [d["status"], d.get("props"), d.get("kind")] for s, d in results[n]["sites"].items()}
         with open(os.path.join(ROOT, "ledger.json"), "w") as f:
             json.dump(ledger, f, indent=1, sort_keys=True)
 
@@ -295,6 +302,9 @@ def main(argv=None):
     if undecided:
         return 2
     return 0
+
+
+IMPLICIT_KINDS = {"assert", "zerodiv", "domain", "index", "shape", "format"}
 
 
 def lean_status(fname="LA.lean", what="LA1-LA5", timeout=1500):
